@@ -11,6 +11,16 @@ _ODE_NOTE = ("the strict C reader is trusted for the statement shapes it accepts
 _ODE_TECH = ("TLA+ spec OdeGen.tla model-checked with TLC over all small networks; TLC-chosen and random networks rendered by the real "
              "generator for dense/sparse/cusparse/odeint, read back with a strict C reader and validated event by event by Trace_OdeGen.tla")
 CHECKS = {
+    "C20": dict(level="model_checking", design_ref="DESIGN.md §4 C20, §11",
+        technique="TLA+ spec ConfigRoundTrip.tla (InitParse -> Content -> RenderRead over token shapes) model-checked with TLC; real "
+                  "`naunet init ... --render` runs with the written TOML and the constructor arguments of Network / TemplateLoader "
+                  "captured and judged by Trace_ConfigRoundTrip.tla; rendered tree compared with the equivalent API rendering",
+        text="TLC checks RoundTripId for all option vectors with <= 2 tokens per option over the shapes plain / padded / inner blank / "
+             "empty; every real run (four project kinds incl. binding energies, yields, shielding, rate and ODE modifiers, cooling, "
+             "upper-case elements with replacement; three solver choices) must write exactly the normalised request into the TOML, hand "
+             "exactly it to Network(...) / TemplateLoader(...), and produce sources byte-identical to the API rendering.",
+        note="a data-flow pipeline: TLC's part is the shapes, the acceptance/normalisation rule and the field-wise judgement; strings stay in "
+             "the driver"),
     "C10": dict(level="model_checking", design_ref="DESIGN.md §4 C10, §11",
         technique="TLA+ spec Symbols.tla (register / unregister / ordered merge over the component list, Closed predicate) model-checked "
                   "with TLC; registries of the real component objects and the declarations / identifier uses of every emitted unit judged "
